@@ -6,7 +6,6 @@ import (
 	"net/http"
 	"reflect"
 	"strings"
-	"sync"
 
 	"github.com/gookit/goutil"
 )
@@ -23,8 +22,8 @@ type Router struct {
 	err error
 	// count routes
 	counter int
-	// context pool
-	ctxPool sync.Pool
+	// context pool. verifCtxPool is an alias of sync.Pool unless built with the "verif" tag
+	ctxPool verifCtxPool
 
 	// Static/stable/fixed routes, no path params.
 	// {
